@@ -53,7 +53,7 @@ def d1(cx: Cx, ob: Ob) -> None:
         ob.undecide("standardize_prefix has no success return")
 
 
-@obligation("C06-D2", "IDX: synonym_to_prefix maps the canonical prefix to itself and each synonym to the canonical prefix (constructor and _index)", floor=4)
+@obligation("C06-D2", "IDX: synonym_to_prefix maps the canonical prefix to itself and each synonym to the canonical prefix (constructor and _index)", floor=2)
 def d2(cx: Cx, ob: Ob) -> None:
     check_table_roles(cx, ob, ["synonym_to_prefix"])
 
